@@ -116,6 +116,27 @@ pub(crate) fn get_call_stack_depth(state: &mut HashMap<String, StateValue>) -> u
     call_stack.len()
 }
 
+/// Drops the invocations above the provided depth: calls which are not going to return,
+/// since the flow that was running them has ended (their scopes are given back).
+pub(crate) fn unwind_call_stack(
+    state: &mut HashMap<String, StateValue>,
+    variables: &mut HashMap<String, String>,
+    depth: usize,
+) {
+    while get_call_stack_depth(state) > depth {
+        match pop_from_call_stack(state) {
+            Some(call_info) => {
+                if call_info.scoped {
+                    if scope::pop(variables, state, &vec![]).is_err() {
+                        break;
+                    }
+                }
+            }
+            None => break,
+        }
+    }
+}
+
 fn push_to_call_stack(state: &mut HashMap<String, StateValue>, call_info: &CallInfo) {
     let fn_state = get_core_sub_state_for_command(state, FUNCTION_STATE_KEY.to_string());
     let call_stack = get_list(CALL_STACK_STATE_KEY.to_string(), fn_state);
